@@ -1,5 +1,6 @@
 pub mod cache;
 pub mod client;
+pub mod zone_answers;
 pub mod zonestore;
 
 use crate::core::runner::{CheckSpec, Scenario};
@@ -10,6 +11,7 @@ pub fn scenario_by_name(name: &str) -> Option<Arc<dyn Scenario>> {
         "client" => Arc::new(client::ClientScn),
         "cache" => Arc::new(cache::CacheScn),
         "zone_isolation" => Arc::new(zonestore::IsolationScn),
+        "zone_answers" => Arc::new(zone_answers::AnswersScn),
         _ => return None,
     };
     Some(s)
@@ -21,6 +23,11 @@ pub fn check_spec(property: &str) -> Option<CheckSpec> {
             property: "C15",
             level: "exploration",
             scenarios: vec![(Arc::new(client::ClientScn), 60_000, 3_000_000)],
+        },
+        "C08" => CheckSpec {
+            property: "C08",
+            level: "exploration",
+            scenarios: vec![(Arc::new(zone_answers::AnswersScn), 6_000, 300_000)],
         },
         "C09" => CheckSpec {
             property: "C09",
